@@ -34,7 +34,24 @@ def parseOp (ts : List String) : Option Svc.Op :=
       pure (.collect (← unesc T) { id := ← unesc i, level := ← l.toNat?, time := ← t.toInt?, prev := 0, tags := ← parseTags tags })
   | _ => none
 
+/-- topics reachable from `T` through the currently registered publish specs (matches ignored: an
+over-approximation of where an event collected on `T` may legitimately be delivered) -/
+def reach (specs : List Spec) : Nat → List String → List String
+  | 0, acc => acc
+  | fuel + 1, acc =>
+    let next := (specs.filter (fun sp => acc.contains sp.topic)).flatMap (·.targets)
+    let acc' := next.foldl (fun a t => if a.contains t then a else a ++ [t]) acc
+    if acc'.length == acc.length then acc else reach specs fuel acc'
+
+def obsTimes (tok : String) : List Int :=
+  if tok == "-" then [] else
+  (tok.splitOn ",").filterMap (fun e => match e.splitOn ":" with
+    | [_, _, t, _] => t.toInt?
+    | _ => none)
+
 structure DSt where
+  /-- per collect (identified by its unique time): the topics it may legitimately reach -/
+  reachOf : List (Int × List String) := []
   model : Svc.St := {}
   direct : List String := []                         -- topics collected directly so far
   /-- independent bookkeeping for the spec clauses: per direct topic the collects so far (id, level, time, prev) -/
@@ -65,6 +82,17 @@ def judge (_id : String) (lines : Array String) : Verdict := Id.run do
           let evs := (st.directLog.filter (fun p => p.1 == T)).map (·.2)
           let sp := renderL ((evs.drop since).map renderSEv)
           if obs != [sp] then return .specfail "delivery-exactly-once-fifo" s!"recorder {esc n} on direct topic {esc T}: spec {sp} observed {obs}"
+      -- delivered only along registered handlers, and at most once (every topic has a single way in)
+      for o in obs do
+        let ts := obsTimes o
+        for t in ts do
+          match st.reachOf.find? (fun p => p.1 == t) with
+          | none => return .specfail "delivered-only-what-was-collected" s!"recorder {esc n} topic {esc T} received an event with time {t} that was never collected"
+          | some (_, r) =>
+            if !r.contains T then
+              return .specfail "delivered-only-through-registered-handlers" s!"recorder {esc n} topic {esc T} received the event collected at time {t}, but no registered handler chain leads to {esc T}"
+        if ts.eraseDups.length != ts.length then
+          return .specfail "delivery-exactly-once" s!"recorder {esc n} topic {esc T} received an event twice: {o}"
       if m != "-" then st := addBr st "recorder-nonempty"
       if obs != [m] then return .mismatch s!"recorder {esc n} topic {esc T}: model {m} observed {obs}"
     | _ =>
@@ -77,6 +105,7 @@ def judge (_id : String) (lines : Array String) : Verdict := Id.run do
           let prev := match ((st.directLog.filter (fun p => p.1 == T)).map (·.2)).reverse.find? (fun e => e.id == ev.id) with
             | some p => p.level
             | none => 0
+          st := { st with reachOf := (ev.time, reach st.model.specs (st.model.specs.length + 1) [T]) :: st.reachOf }
           st := { st with direct := if st.direct.contains T then st.direct else T :: st.direct,
                           directLog := st.directLog ++ [(T, { ev with prev := prev })] }
         | .recorder T n =>
